@@ -346,7 +346,15 @@ func nfrag(n, maxf int) int {
 // identify maps the decoded frames to (call, fragment) pairs using the known payload lengths per call; reports a
 // wholeness violation as a string ("" = the stream is a concatenation of whole groups of the calls in `lens`, each at
 // most once; `partialOK` allows the last group to be incomplete).
-func identify(fs []frame, lens map[int]int, maxf int, partialOK bool) (ids []string, problem string) {
+func identify(fs []frame, lens map[int]int, maxf int, partialOK bool, refused ...map[int]string) (ids []string, problem string) {
+	// calls known to have been refused are only taken when no accepted call matches (identical payloads: empty messages)
+	isRefused := func(g int) bool {
+		if len(refused) == 0 {
+			return false
+		}
+		r, ok := refused[0][g]
+		return ok && r != "ok"
+	}
 	cur, next := -1, 0
 	seen := map[int]bool{}
 	for i, f := range fs {
@@ -361,7 +369,7 @@ func identify(fs []frame, lens map[int]int, maxf int, partialOK bool) (ids []str
 			// which call? match by payload content of fragment 0
 			// (calls with the same payload — the empty message — are indistinguishable: the lowest-numbered
 			// call not yet seen is taken)
-			found, dup := -1, -1
+			found, dup, refusedCand := -1, -1, -1
 			gids := make([]int, 0, len(lens))
 			for gid := range lens {
 				gids = append(gids, gid)
@@ -378,9 +386,18 @@ func identify(fs []frame, lens map[int]int, maxf int, partialOK bool) (ids []str
 						dup = gid
 						continue
 					}
+					if isRefused(gid) {
+						if refusedCand < 0 {
+							refusedCand = gid
+						}
+						continue
+					}
 					found = gid
 					break
 				}
+			}
+			if found < 0 && refusedCand >= 0 {
+				found = refusedCand
 			}
 			if found < 0 && dup >= 0 {
 				ids = append(ids, fmt.Sprintf("%d:0", dup))
@@ -555,17 +572,17 @@ func runWQ(e *lp.Exec, head string, ops []string) {
 	} else {
 		wc = websocket.NewServerConn(u, gc, "", comp, true)
 	}
+	rets := map[int]string{}
 	var qcalls []qcall // comp: the calls that queued frames, in order
 	ident := func(fs []frame, partialOK bool) ([]string, string) {
 		if comp {
 			return identifyComp(fs, qcalls, lens0, partialOK)
 		}
-		return identify(fs, lens0, maxf, partialOK)
+		return identify(fs, lens0, maxf, partialOK, rets)
 	}
 	e.P("> %s", head)
 	e.P("ok")
 	lens := lens0
-	rets := map[int]string{}
 	gid := 0
 	sentErr := false
 	closed := false
